@@ -71,3 +71,4 @@ claim("C26", "K11", "Unbounded proof (loop contracts, any input length) that eve
 claim("C23", "K13 K15", "Unbounded proof of isValidGlobPattern safety/termination and loop-free proof of isSameParameters; bounded checks (labelled) that matchglob equals glob semantics for short strings and that Suppression::isSuppressed equals the documented decision table with matchglob / PathMatch::match / macro lookup as arbitrary oracles.", _NOTE)
 claim("C24", "K15", "Proof on the per-suppression predicates of getUnmatched{Local,Global,Inline}Suppressions (loop bodies as regions): a matched suppression is never reported, inline/non-inline split, local/global disjoint; with isMatch's contract: once isMatch returned true the suppression is reported by none of them. Only this half of the property is claimed.", _NOTE)
 claim("C30", "K18", "Unbounded proof (loop contract) that the <valid>-expression gate isCompliantValidationExpression is memory-safe on every NUL-terminated string, terminates and rejects empty strings and a leading '.'; its language is bracketed by the documented grammar for short strings (bounded, labelled).", _NOTE)
+claim("C33", "K24", "Unbounded proof of the interpreter leaves chrInFirstWord / firstWordEquals (loop contracts); bounded check per pattern word that the matcher generated by the real tools/matchcompiler.py equals the extracted Token::Match on symbolic token lists of 0..2 tokens (labelled bounded; seeded word sample in the quick tier, every word of lib/*.cpp in the thorough tier).", _NOTE)
